@@ -19,7 +19,7 @@ CFG = dict(
          "TimeDelta neg / + / - / * i32, From<i64>, Time +- TimeDelta; both NaT encodings of TimeDelta). "
          "non-trivial = distinct case descriptions not tagged nt=0",
     theorem_hint="Props/C16.v: C16_nat_conv_*, C16_nat_ops_*, C16_coarsen_*, C16_refine_back, C16_cr_roundtrip*",
-    level_text="Proof: 20 theorems (Props/C16.v, axiom-free, over Z) about the Gallina model of tea-time "
+    level_text="Proof: 22 theorems (Props/C16.v, axiom-free, over Z) about the Gallina model of tea-time "
                "(Model/Time.v): NaT through every conversion and every operator; coarsening = Euclidean floor of the "
                "instant (also before 1970) and equal to the conversion through chrono's (secs, nanos) model; refine-and-"
                "back identity; as_cr/From<chrono> round trips; the executable proleptic-Gregorian calendar is a "
